@@ -1,7 +1,7 @@
 _C08_SDK = ["common", "version", "resource", "metrics"]
 H("c08_attrs", "C08", "seq", ["harness/c08_attrs.cc"], sdk=_C08_SDK, cxxflags=["-fno-access-control"],
   args={"quick": ["--n1=3", "--n2=2"], "thorough": ["--n1=3", "--n2=3"]},
-  what="real FilteredOrderedAttributeMap / hash / FilteringAttributesProcessor / AttributesHashMap / SyncMetricStorage (and MeterProvider + View): every pair of "
+  what="real FilteredOrderedAttributeMap / hash / FilteringAttributesProcessor / AttributesHashMap / SyncMetricStorage (and MeterProvider + View, delta and cumulative reader): every pair of "
        "single-key lists over 47 typed values (every AttributeValue alternative), every pair of lists of <= n1 / <= n2 entries over keys {a,b,c} x 3 values "
        "(all orders, duplicates), keys with embedded NUL / common prefixes, every allow-list, 3 key storage shapes; all pairs of 13 ways to build the EMPTY set "
        "(default-constructed, empty iterable / initializer list, filtered to empty) and <= 3 records mixing the attribute-less overloads (Add(v), Record(v,ctx), "
@@ -9,9 +9,11 @@ H("c08_attrs", "C08", "seq", ["harness/c08_attrs.cc"], sdk=_C08_SDK, cxxflags=["
        "(equal-as-maps <=> same series, equal => equal hash, filter removes exactly the disallowed keys, owned copies)",
   design_ref="5/C08")
 H("c08_cardinality", "C08", "seq", ["harness/c08_cardinality.cc"], sdk=_C08_SDK, cxxflags=["-fno-access-control"],
-  args={"quick": ["--depth=8"], "thorough": ["--depth=9"]},
-  what="real SyncMetricStorage with cardinality limit 1..4: every history of the given depth over Record(one of limit+2 attribute sets, unique bit per record) and "
-       "Collect(collector) for {delta}, {cumulative}, {delta,cumulative} collectors, plus MeterProvider configurations at the default limit 2000 "
-       "(1999/2001 sets, 2x1100, 2x2001, 3x1100, two readers with two pending interval tables); after every collection: series <= limit, only recorded sets or "
-       "the overflow set, no foreign measurements in a regular series, total over series == everything recorded in scope",
+  args={"quick": ["--depth=8", "--edepth=7", "--tdepth=4"], "thorough": ["--depth=9", "--edepth=8", "--tdepth=5"]},
+  what="real SyncMetricStorage with cardinality limit 1..4: every history of depth `depth` over Record(one of limit+2 attribute sets, unique bit per record) and "
+       "Collect(collector) for {delta}, {cumulative}, {delta,cumulative} collectors, every history of depth `edepth` that may also Record WITHOUT attributes (the empty set through "
+       "the attribute-less overload), with the delta collector also under a filtering view whose records carry a unique dropped attribute; MeterProvider configurations at the default "
+       "limit 2000 (1999/2001 sets, 2x1100, 2x2001, 3x1100, two readers with two pending interval tables); AttributesHashMap(1..3) directly: every sequence of depth `tdepth` over "
+       "(attribute set, one of the 3 GetOrSetDefault + 3 Set overloads), only the addressed entry may change. After every collection: series <= limit, only recorded sets or "
+       "the overflow set, no foreign measurements in a regular series and, within one interval table, all measurements of its set; total over series == everything recorded in scope",
   design_ref="5/C08")
